@@ -8,6 +8,8 @@ PKGS = ["./internal/smtpconn/pool/", "./internal/target/remote/"]
 POOL = "internal/smtpconn/pool/pool.go"
 REMOTE = "internal/target/remote"
 FN = {"CleanUp": "c", "Get": "g", "Return": "r", "Close": "s"}
+# never run by a scheduled goroutine: the constructor and the pool's own ticker goroutine
+UNSCHEDULED = {"New", "cleanUpTick"}
 # ordered synchronisation skeleton the model (Model/Pool.lean) was written for: per function, the kinds of
 # the points in source order (lock acquisition, map-range iteration, close, drain receive, select, go, stop send)
 EXPECT = {
@@ -32,24 +34,22 @@ def rewrite(src):
         counts.setdefault(fn, []).append(kind)
 
     for idx, line in enumerate(lines):
-        m = re.match(r"^func \(p \*P\) (\w+)\(", line)
+        m = re.match(r"^func (?:\(\w+ \*?P\) )?(\w+)\(", line)
         if m:
-            fn = FN.get(m.group(1))
+            # functions the model does not know (helpers a changed tree may have) get the same yields under the
+            # label "x": the lockstep comparison fails on them, the scheduler and the monitor keep working
+            fn = None if m.group(1) in UNSCHEDULED else FN.get(m.group(1), "x")
         elif re.match(r"^func ", line):
             fn = None
         line = line.replace("time.Now()", "vcoop.Now()")
         ind = re.match(r"^(\s*)", line).group(1)
         if fn is None:
-            # helper functions (none on the tree the model mirrors): no yields, but a `go x.Close()` must still
-            # become a scheduled task, otherwise the connection's callbacks run outside the scheduler
-            m = re.match(r"^\s*go (\w+)\.Close\(\)\s*$", line)
-            if m:
-                line = '%svcoop.Go("cc", func() { %s.Close() })' % (ind, m.group(1))
             out.append(line)
             continue
-        if re.match(r"^\s*p\.keysLock\.Lock\(\)\s*$", line):
+        m = re.match(r"^\s*(\w+)\.keysLock\.Lock\(\)\s*$", line)
+        if m:
             hit("lock")
-            out.append('%svcoop.Lock(&p.keysLock, "%s.lock")' % (ind, fn))
+            out.append('%svcoop.Lock(&%s.keysLock, "%s.lock")' % (ind, m.group(1), fn))
             continue
         m = re.match(r"^\s*for (\w+), (\w+) := range p\.keys \{\s*$", line)
         if m:
@@ -76,7 +76,7 @@ def rewrite(src):
             continue
         if re.match(r"^\s*select \{\s*$", line):
             nxt = lines[idx + 1] if idx + 1 < len(lines) else ""
-            m = re.match(r"^\s*case (?:\w+, \w+ = )?<-([\w.]+):", nxt) or re.match(r"^\s*case ([\w.]+) <- \w+:", nxt)
+            m = re.match(r"^\s*case (?:\w+(?:, \w+)? :?= )?<-([\w.]+):", nxt) or re.match(r"^\s*case ([\w.]+) <- \w+:", nxt)
             if m:
                 hit("sel")
                 out.append('%svcoop.Point("%s.sel", %s)' % (ind, fn, m.group(1)))
@@ -167,16 +167,24 @@ def run(c):
         "atomicity: one model step = the code between two synchronisation points (lock acquisition, channel operation, map-range iteration, connection callback); "
         "unlocks and map accesses are merged into the preceding step because only the lock holder touches the map",
         "a pooled hand-out is timed at the channel receive that removed the connection from the pool (its linearisation point), not at the return of Get",
+        "the idle stamp of a connection (LastUseAt) is written by its user and by cfg.New only, never by Usable() (C19_usable_keeps_idle_stamp, C19_pool_never_restamps); "
+        "the real mxConn is held to this by the monitor of the remote-target harness (C19/usable-moved-idle-stamp) and by the T1 fingerprint of mxConn.Usable/LastUseAt/Close",
+        "real mxConn objects are exercised on sequential histories only (one delivery step at a time); the interleavings are explored with instrumented connection objects",
     ]
     c.trusted_base += [
         "checks/c19.py rewriter (textual insertion of scheduler yields into pool.go at check time) and harness/internal/verifshim/vcoop (cooperative scheduler)",
+        "checks/c19.py reclock (time.Now() of pool.go and of the remote-target files that stamp mxConn.lastUseAt is vcoop's manual clock in the overlay), the scripted go-smtp servers of the remote-target harness",
     ]
     return c.finish(
         rule="random cases: 1-8 workers running get/use/return/drop sessions on 1-3 keys, clean-up sweeps, at most one shutdown, clock ticks and connection breaks, "
         "MaxKeys 1-3, MaxConnsPerKey 0-3, MaxConnLifetime 0-4 s, StaleKeyLifetime 0-6 s; schedules: uniform, sticky (few pre-emptions), delay-bounded (<= 2 delays), "
         "targeted (Get parked after unlock while buckets expire / are swept / pool shuts down); the REAL pool.go (yields inserted before every lock/channel op) runs each schedule "
         "step by step under a deterministic cooperative scheduler; after every step the synchronisation point reached, and at the end the whole pool state, are compared with the Lean model's; "
+        "full-map scenarios (MaxKeys live buckets with several idle connections, then returns and gets for further keys inside the lifetime); "
+        "plus sequential histories of the REAL remote target (real remoteDelivery / mxConn / smtpconn over loopback SMTP servers for 3 domains, real pool, manual clock): deliveries opened and ended in any order, "
+        "ticks around the idle lifetime (late returns), server-side connection drops, sweeps, MaxKeys 1/2/5000, conn_max_idle_count 0-3, conn_max_idle_time 1-150 s — compared with the model run sequentially (`C19 mx` lines); "
         "distinct = distinct (case, schedule) lines",
-        explanation="theorems over all schedules, any number of workers/keys; model tied to pool.go by step-level lockstep runs of the real code; independent Go monitor on connection objects",
+        explanation="theorems over all schedules, any number of workers/keys; model tied to pool.go by step-level lockstep runs of the real code, and to the real connection type by sequential runs of the real remote target; "
+        "independent Go monitors on connection objects (own records of owner, key and time of the last Return, last use; what the scripted servers saw)",
         search=search,
     )
